@@ -20,7 +20,9 @@ demo() {
     EX="$W/input/example.thdm"; [ -f "$S/demo.args" ] && EX="$W/$(cat "$S/demo.args")"
     (cd "$W" && timeout 900 "$D/demo" "$W/_b/bin/gm2calc.x" "$EX" >"$D/demo.out" 2>&1); return $?
   elif [ -f "$S/demo.sh" ]; then
-    (cd "$W" && ROOT="$W" BUILD="$W/_b" GM2CALC_BUILD_DIR="$W/_b" GM2CALC="$W/_b/bin/gm2calc.x" REPO="$W" timeout 900 bash "$S/demo.sh" "$W/_b/bin/gm2calc.x" "$W/$( [ -f "$S/demo.args" ] && cat "$S/demo.args" || echo input/example.slha)" >"$D/demo.out" 2>&1); return $?
+    # run a copy placed inside the worktree (some demonstrations locate the source tree relative to their own path)
+    mkdir -p "$W/SEED_DEMO" && cp "$S/demo.sh" "$W/SEED_DEMO/demo.sh"
+    (cd "$W" && ROOT="$W" BUILD="$W/_b" GM2CALC_BUILD_DIR="$W/_b" GM2CALC="$W/_b/bin/gm2calc.x" REPO="$W" timeout 900 bash "$W/SEED_DEMO/demo.sh" "$W/_b/bin/gm2calc.x" "$W/$( [ -f "$S/demo.args" ] && cat "$S/demo.args" || echo input/example.slha)" >"$D/demo.out" 2>&1); return $?
   fi
   echo "no demo"; return 98
 }
